@@ -14,16 +14,16 @@ KEYS = [" ", "A", "B", "C"]
 
 
 def make_file(path, rng, layout, uid):
-    """layout: string of I (2-D image), C (3-D cube, celestial last two), V (1-D), T (bin table), E (empty image).
+    """layout: string of I (2-D image), Z (tile-compressed 2-D image, a CompImageHDU), C (3-D cube, celestial last two), V (1-D), T (bin table), E (empty image).
     Returns per-HDU descriptors: kind, shape, value tag, {key: crval1}."""
     from astropy.io import fits
     hdus, desc = [], []
     for j, kind in enumerate(layout):
         tag = float(uid * 100 + j)
         keys = {}
-        if kind in "ICDF":
+        if kind in "ICDFZ":
             h, w = rng.randint(3, 9), rng.randint(3, 9)
-            if kind == "I":
+            if kind in "IZ":
                 data = np.full((h, w), tag, dtype=np.float32)
             elif kind == "C":      # FITS axes RA, DEC, FREQ  (numpy: freq, dec, ra)
                 data = np.full((2, h, w), tag, dtype=np.float32)
@@ -34,7 +34,7 @@ def make_file(path, rng, layout, uid):
             else:                  # FITS axes RA, FREQ, DEC  (numpy: dec, freq, ra)
                 data = np.full((h, 2, w), tag, dtype=np.float32)
                 data[:, 1, :] = -1
-            ax = {"I": (1, 2, None), "C": (1, 2, 3), "D": (2, 3, 1), "F": (1, 3, 2)}[kind]
+            ax = {"I": (1, 2, None), "Z": (1, 2, None), "C": (1, 2, 3), "D": (2, 3, 1), "F": (1, 3, 2)}[kind]
             hdr = fits.Header()
             nk = rng.randint(1, 3)
             for ki, key in enumerate(KEYS[:nk]):
@@ -55,7 +55,13 @@ def make_file(path, rng, layout, uid):
                     hdr[f"CRPIX{a3}" + k] = 1.0
                     hdr[f"CDELT{a3}" + k] = 1.0e6
                 keys[key] = crval
-            hdu = fits.PrimaryHDU(data, header=hdr) if j == 0 else fits.ImageHDU(data, header=hdr)
+            if kind == "Z":
+                if j == 0:
+                    hdus.append(fits.PrimaryHDU())
+                    desc.append({"kind": "E"})
+                hdu = fits.CompImageHDU(data, header=hdr, compression_type="GZIP_1")
+            else:
+                hdu = fits.PrimaryHDU(data, header=hdr) if j == 0 else fits.ImageHDU(data, header=hdr)
             desc.append({"kind": kind, "shape": (h, w), "tag": tag, "keys": keys})
         elif kind == "V":
             data = np.arange(5, dtype=np.float32)
@@ -110,7 +116,7 @@ def expected_choice(desc, hs, i):
     n = len(desc)
     if hs is None:
         for j, d in enumerate(desc):
-            if d["kind"] in "ICDF":
+            if d["kind"] in "ICDFZ":
                 return j
         return None
     k = hs if isinstance(hs, int) else (hs[i] if i < len(hs) else None)
@@ -118,7 +124,7 @@ def expected_choice(desc, hs, i):
         return None
     if k < 0:
         k += n
-    if not (0 <= k < n) or desc[k]["kind"] not in "ICDF":
+    if not (0 <= k < n) or desc[k]["kind"] not in "ICDFZ":
         return None
     return k
 
@@ -152,7 +158,7 @@ def main():
     lines, py = [], []
     groups = []
     try:
-        layouts = ["I", "EI", "ETI", "EII", "TII", "EVI", "EITI", "EIC", "ECI", "EIII", "IT", "ET", "E", "EV", "ETIC", "EDI", "EFD", "D", "EIF"]
+        layouts = ["I", "EI", "ETI", "EII", "TII", "EVI", "EITI", "EIC", "ECI", "EIII", "IT", "ET", "E", "EV", "ETIC", "EDI", "EFD", "D", "EIF", "EZI", "ETZI", "EZ", "ZI", "EZT"]
         n_coll = 400 if h.deep else 110
         uid = 0
         for ci in range(n_coll):
@@ -176,7 +182,7 @@ def main():
             else:
                 hs = []
                 for dsc in descs:
-                    good = [j for j, x in enumerate(dsc) if x["kind"] in "ICDF"]
+                    good = [j for j, x in enumerate(dsc) if x["kind"] in "ICDFZ"]
                     if good and rng.random() < 0.93:
                         hs.append(rng.choice(good))
                     else:
